@@ -60,7 +60,7 @@ PROPS["C15"] = {
 # development-only entry: the chain family with all monitors, no Lean module (not in MANIFEST)
 PROPS["XCHAIN"] = {
     "lean_modules": [], "namespaces": [],
-    "t1": [{"family": "chain", "model": None, "quick_n": 4000, "thorough_n": 200000, "reset_token": "init", "group_token": "begin"}],
+    "t1": [{"family": "chain", "model": "chain", "quick_n": 4000, "thorough_n": 200000, "reset_token": "init", "group_token": "begin"}],
 }
 
 # Properties not claimed, with the reason (kept current; see DESIGN.md).
